@@ -472,6 +472,95 @@ static void other_scenarios()
                                              return pr;
                                          }});
             }
+    // the same with long input (the repair works in internal scratch storage that changes with the size: 85 / 86 bytes for
+    // three-fold growth past a 256-byte stack area, 300, 1,100) and through the other entry points that repair
+    for (int in = 0; in < 6; ++in)
+        for (int how = 0; how < 9; ++how) {
+            static const char *HOW[9] = {"t.set(ptr,n)", "t.set(char_buffer&&)", "t.set(std::string)", "t = S(ptr,n,subst)", "t = S::from_utf8", "stream.to_string(true, subst)",
+                                         "t = format(subst, {}, text)", "t = S(char8_t ptr,n,subst)", "t.set(const char_buffer&)"};
+            static const char *INN[6] = {"85 bytes, bad first", "86 bytes, bad first", "86 bytes, bad last", "300 bytes, bad in the middle", "1100 bytes, bad lead at the end", "90 bytes, all bad"};
+            g_scn.push_back(Scenario{vf::strf("%s under substitute_invalid with %s", HOW[how], INN[in]), [=](vf::Outcome &oc) {
+                                         std::string prev(40, 'v');
+                                         std::string bad = in == 0   ? "\xFF" + std::string(84, 'a')
+                                                           : in == 1 ? "\xFF" + std::string(85, 'a')
+                                                           : in == 2 ? std::string(85, 'a') + "\xC3"
+                                                           : in == 3 ? std::string(150, 'a') + "\x80" + std::string(149, 'b')
+                                                           : in == 4 ? std::string(1099, 'q') + "\xE2"
+                                                                     : std::string(90, '\xFE');
+                                         S t;
+                                         SETUP(t = S::from_validated(prev.data(), prev.size()));
+                                         ST::string_stream ss;
+                                         if (how == 5) SETUP(ss.append(bad.data(), bad.size()));
+                                         oc = vf::guard([&] {
+                                             switch (how) {
+                                             case 0: LIB(t.set(bad.data(), bad.size(), ST::substitute_invalid)); break;
+                                             case 1: LIB(ST::char_buffer cb(bad.data(), bad.size()); t.set(std::move(cb), ST::substitute_invalid)); break;
+                                             case 2: LIB(t.set(bad, ST::substitute_invalid)); break;
+                                             case 3: LIB(t = S(bad.data(), bad.size(), ST::substitute_invalid)); break;
+                                             case 4: LIB(t = S::from_utf8(bad.data(), bad.size(), ST::substitute_invalid)); break;
+                                             case 5: LIB(t = ss.to_string(true, ST::substitute_invalid)); break;
+                                             case 6: LIB(t = ST::format(ST::substitute_invalid, "{}", bad.c_str())); break;
+                                             case 7: LIB(t = S((const char8_t *)bad.data(), bad.size(), ST::substitute_invalid)); break;
+                                             default: LIB(const ST::char_buffer cb(bad.data(), bad.size()); t.set(cb, ST::substitute_invalid)); break;
+                                             }
+                                         });
+                                         std::string pr = oc.ok() ? "" : buf_problem<char>(t.m_buffer, prev, "target");
+                                         if (pr.empty() && oc.ok()) {
+                                             std::string got(t.c_str(), t.size());
+                                             if (got.find('\xFF') != std::string::npos || got.find('\xFE') != std::string::npos || got.find("\xEF\xBF\xBD") == std::string::npos)
+                                                 pr = "result is not the repaired text";
+                                         }
+                                         if (pr.empty() && how == 5 && std::string(ss.raw_buffer(), ss.size()) != bad) pr = "stream content changed by to_string()";
+                                         LIB(ss.~string_stream(); new (&ss) ST::string_stream());
+                                         LIB(t.~S(); new (&t) S());
+                                         return pr;
+                                     }});
+        }
+    // output to a std::basic_ostream whose buffer is a fixed array: the stream machinery allocates nothing, so every allocation
+    // inside the call is the library's own (conversion buffers, the formatter's copy of its arguments) and its failure has to
+    // come out of the call as std::bad_alloc - not as a stream state, not as a shorter output
+    {
+        struct Nar : std::streambuf {
+            char area[8192];
+            Nar() { setp(area, area + sizeof area); }
+        };
+        struct Wid : std::wstreambuf {
+            wchar_t area[8192];
+            Wid() { setp(area, area + 8192); }
+        };
+        for (int what = 0; what < 8; ++what) {
+            static const char *WN[8] = {"writef(wostream, 20-char literal + 30-char text + number)", "writef(wostream, {>40} pad + UTF-8 text)", "wostream << S(long)",
+                                        "writef(ostream, literal + text + 1e100 fixed)", "ostream << S(long)", "writef(wostream, {} of wide / u16 / u32 text)",
+                                        "writef(ostream, {.80f}{>300})", "writef(wostream, twelve chars)"};
+            g_scn.push_back(Scenario{vf::strf("fixed-array streambuf: %s", WN[what]), [=](vf::Outcome &oc) {
+                                         static Nar nb;
+                                         static Wid wb;
+                                         static std::ostream nos(&nb);
+                                         static std::wostream wos(&wb);
+                                         nb.pubseekpos(0);
+                                         nos.clear();
+                                         wos.clear();
+                                         new (&nb) Nar();
+                                         new (&wb) Wid();
+                                         bool bad = false;
+                                         oc = vf::guard([&] {
+                                             switch (what) {
+                                             case 0: LIB(ST::writef(wos, "a literal of 20 chars {} and {}", "an argument text of thirty chars", 42)); break;
+                                             case 1: LIB(ST::writef(wos, "{>40}|{}", 7, "caf\xC3\xA9 \xE2\x82\xAC and a tail of some length")); break;
+                                             case 2: LIB(wos << S::from_validated(u8long.data(), u8long.size())); break;
+                                             case 3: LIB(ST::writef(nos, "a literal of 20 chars {} and {f}", "an argument text of thirty chars", 1e100)); break;
+                                             case 4: LIB(nos << S::from_validated(u8long.data(), u8long.size())); break;
+                                             case 5: LIB(ST::writef(wos, "{}{}{}", L"wide text that is long enough", u"utf-16 text that is long enough", U"utf-32 text that is long enough")); break;
+                                             case 6: LIB(ST::writef(nos, "{.80f}{>300}", 1.5, 7)); break;
+                                             default: LIB(ST::writef(wos, "twelve chars")); break;
+                                             }
+                                             bad = nos.bad() || wos.bad() || nos.fail() || wos.fail();
+                                         });
+                                         if (oc.ok() && bad) return std::string("the stream reports failure although nothing but a library allocation could fail");
+                                         return std::string();
+                                     }});
+        }
+    }
     // stream insertion with the stream at every fill level just below a capacity boundary (sign / first piece fits, the rest
     // needs the growth that fails)
     for (size_t cap : {size_t(256), size_t(512)})
